@@ -16,6 +16,10 @@ func init() {
 				Quick:    map[string]int{"nmax": 7, "mmax": 4},
 				Thorough: map[string]int{"nmax": 12, "mmax": 12},
 				Reach:    []string{"some call failed", "several chunks", "empty input", "second call"}, Functions: fns},
+			{Name: "mixed-uploads", Pkg: "queryer", Files: []string{"queryer/c11.go"}, Entry: "VerifMixedUploads", Mode: "seq",
+				Quick:    map[string]int{"nmax": 4, "mmax": 3},
+				Thorough: map[string]int{"nmax": 6, "mmax": 4},
+				Reach:    []string{"uploads mixed with plain requests"}, Functions: fns},
 			{Name: "splice-inductive-step", Pkg: "queryer", Files: []string{"queryer/c11.go"}, Entry: "VerifSplice", Mode: "seq",
 				Quick:    map[string]int{"nmax": 8},
 				Thorough: map[string]int{"nmax": 12},
@@ -24,8 +28,9 @@ func init() {
 		Assume: []string{
 			"net/http client replaced by the harness transport verifDo (one call = one invocation); encoding/json replaced by the abstract codec (typed rules driven by go/types struct tags)",
 			"query-canonical-schedule runs the real AsyncMapReduce under one canonical schedule (larger N, m: arithmetic of chunk count, slice bounds, call sizes, failure reporting); completion orders are covered by query-all-interleavings (small N) and by splice-inductive-step (any order, any number of chunks)",
+			"mixed-uploads: every request may carry a file (then it is sent alone as multipart/form-data through the multipart-writer model) at every position of the input, canonical schedule, healthy transport",
 			"splice-inductive-step assumes the accumulator invariant: length N, positions of already reduced chunks hold their answers, all others are nil",
 		},
-		Outside: []string{"N or m beyond the stated bounds", "m < 1", "uploads (C19)", "malformed downstream answers (C09)"},
+		Outside: []string{"N or m beyond the stated bounds", "m < 1", "malformed downstream answers (C09)"},
 	})
 }
